@@ -75,7 +75,8 @@ TG == /\ Ev.op = "G" /\ Gen
       /\ \A g \in GenRecs : MonitorOK(g)
       \* the virtual sites of every generated template are where the specification says (constructed - also when the minimiser had
       \* nothing to do), judged by the monitor from the stored template: g.vs in {"none", "constructed", "initial"}
-      /\ \A g \in GenRecs : \A k \in TrKeys : g.hash \in HashesOf(k) => g.vs = tmpl'[k].vs
+      \* (the key of g.hash = the representative of any observed pair with that hash; written per pair, HashesOf per key is costly)
+      /\ \A g \in GenRecs : \A p \in HMap : p[1] = g.hash => g.vs = tmpl'[Rep(p[2])].vs
       /\ Keep
 \* the end of the run: every residue is backed, in its own molecule, by the version of the template the specification says
 \* (one template per key in the whole system: OneTemplatePerKey), and a computed size is the size of that template (SizeBelongs)
